@@ -94,7 +94,9 @@ def gen_item(rng, idx):
             ret = ret.replace("StdResult<Response>", "Result<Response, Self::Error>").replace("StdResult<u32>", "Result<u32, Self::Error>")
         vis = rng.choice(["", "pub ", "pub(crate) "]) if not is_iface else ""
         gens = "<X: Clone>" if (not handler and rng.random() < 0.2) else ""
-        body = rng.choice(["{ todo!() }", "{ let x = 1; let _ = x + 2; unimplemented!() }", "{ loop { break; } todo!() }"])
+        body = rng.choice(["{ todo!() }", "{ let x = 1; let _ = x + 2; unimplemented!() }", "{ loop { break; } todo!() }",
+                           "{ fn inner(#[cfg(all())] a: u32, #[allow(unused)] b: u32) -> u32 { a } let _ = inner(1, 2); todo!() }",
+                           "{ let f = |#[allow(unused)] z: u32| z; let _ = f(1); struct L; impl L { #[inline] fn g(&self, #[cfg(all())] k: u8) {} } todo!() }"])
         for a in mattrs:
             lines.append("    #[%s]" % a)
         sig = "    %sfn %s%s(%s)%s" % (vis, n, gens, ", ".join(ptxt), " -> " + ret if handler or rng.random() < 0.5 else "")
